@@ -44,6 +44,12 @@ def _norm(nodeid: str) -> str:
 def scratch_copy() -> Path:
     d = Path(tempfile.mkdtemp(prefix="verif-mut-", dir="/tmp"))
     subprocess.run(["rsync", "-a", "--exclude", ".git", "--exclude", "__pycache__", "/repo/", str(d) + "/"], check=True)
+    # the repository's .gitattributes asks for CRLF in *.py; working trees end up mixed.  Normalise the scratch copy to LF
+    # (Python does not care) so that textual mutants and sub-agent patches (converted to LF as well) apply uniformly.
+    for f in list((d / "src").rglob("*.py")) + list((d / "tests").rglob("*.py")):
+        b = f.read_bytes()
+        if b"\r\n" in b:
+            f.write_bytes(b.replace(b"\r\n", b"\n"))
     return d
 
 
@@ -71,11 +77,11 @@ def one_mutant(m: dict) -> dict:
     d = scratch_copy()
     try:
         if "patch" in m:
-            r = subprocess.run(["git", "apply", "--unsafe-paths", "--directory", str(d), m["patch"]], capture_output=True, text=True, cwd=d)
+            lf = d / "_patch_lf.diff"
+            lf.write_bytes(Path(m["patch"]).read_bytes().replace(b"\r\n", b"\n"))
+            r = subprocess.run(["patch", "-p1", "-i", str(lf)], capture_output=True, text=True, cwd=d)
             if r.returncode != 0:
-                r = subprocess.run(["patch", "-p1", "-i", m["patch"]], capture_output=True, text=True, cwd=d)
-                if r.returncode != 0:
-                    return {"id": m["id"], "error": "patch does not apply: " + (r.stdout + r.stderr)[-300:]}
+                return {"id": m["id"], "error": "patch does not apply: " + (r.stdout + r.stderr)[-300:]}
         else:
             f = d / m["file"]
             s = f.read_text()
